@@ -73,6 +73,9 @@ def _dump_vote(vote: Tuple[Candidate, ...],
                candidates: List[Candidate],
                n_votes: Number,
                ) -> List[Number]:
+    if n_votes < 0:
+        # a line starting with a negative number marks withdrawn candidates
+        raise NotSupportedInBLT(f'negative ballot weight: {n_votes}')
     try:
         cand_indices = [candidates.index(cand) + 1 for cand in vote]
     except ValueError:
